@@ -117,7 +117,7 @@ prop("C07",
      bounds="every u32 counter value; 64-byte entries (complete entry of 40 payload bytes / multipart head), entry in the record overlay or on disk; one operation",
      outside="commit-overlay interplay while queued, restarts, btree columns' counts, iter_column_while, column-level histories (DESIGN 3.7)",
      assumptions=[])
-for fn in ("c07_r1_change_ref_overlay", "c07_r1_change_ref_disk", "c07_r1_change_ref_multihead", "c07_r1_change_ref_tombstone"):
+for fn in ("c07_r1_change_ref_overlay", "c07_r1_change_ref_disk", "c07_r1_change_ref_tombstone"):
     add("C07", H("table", fn, "quick", ["C07.R1"], "counter:u32, delta in {+1,-1}, all other entry bytes", "entry 64 bytes; unwind 66", 900, 8, unwind=66,
                  stubs=ENV + OVERLAY + TFILE, replay="playback-native-env"))
 
@@ -210,7 +210,7 @@ for o, n in [(0, 26), (26, 0), (27, 49), (49, 27), (71, 27)]:
                  unwind=102, stubs=ENV + OVERLAY + TFILE, replay="playback-native-env"))
 
 # ---- C07.R2
-for fn in ("c07_r2_dispatch_set", "c07_r2_dispatch_reference", "c07_r2_dispatch_dereference", "c07_r2_dispatch_tree_ops"):
+for fn in ("c07_r2_dispatch_set_replace", "c07_r2_dispatch_set_counted", "c07_r2_dispatch_set_preimage", "c07_r2_dispatch_reference", "c07_r2_dispatch_dereference", "c07_r2_dispatch_tree_ops"):
     add("C07", H("column", fn, "quick", ["C07.R2"], "counter:u32>=1, key, old/new value bytes, ref_counted and preimage flags", "existing 8-byte value in a 64-byte tier; one operation", 1200, 10,
                  unwind=102, stubs=ENV + OVERLAY + TFILE, replay="playback-native-env"))
 for fn in ("c07_r2_dispatch_tree_ops2", "c07_r2_dispatch_tree_ops3"):
@@ -343,33 +343,22 @@ PROPS["C07"]["functions"] += ["IndexedChangeSet::{copy_to_overlay, clean_overlay
 
 add("C13", H("log", "c13_p2i_index_validate_b16", "quick", ["C13.P2"], "page number:u64, 8 mask bytes, available bytes 0..=0x400", "index size 16; unwind 66", 1200, 8, unwind=66, stubs=ENV + RDSTUB, replay="solver-trace-only"))
 add("C13", H("log", "c13_p2i_index_validate_b20", "thorough", ["C13.P2"], "as b16", "index size 20; unwind 66", 1200, 8, unwind=66, stubs=ENV + RDSTUB, replay="solver-trace-only"))
-add("C13", H("db", "c13_p3_enact_logs_validation_gate", "quick", ["C13.P3"], "20 log bytes, logical length 0..=20, last_enacted:u64", "struct-literal DbInner without columns; one enact_logs(true) call; unwind 40", 2400, 12,
-             unwind=40, stubs=ENV + FILEREAD + FEV, replay="solver-trace-only"))
-PROPS["C13"]["functions"] += ["IndexTable::{validate_plan, skip_plan}", "DbInner::enact_logs (validation mode)", "LogReader::reset", "Log::read_next"]
-PROPS["C13"]["bounds"] += "; value-table payloads: entry sizes 64 / 4096, all 2^16 size fields, any slot; index pages: any page number and mask; enact_logs(validation) over <= 20 arbitrary log bytes on a database without columns"
+# c13_p3_enact_logs_validation_gate (harness/db.rs) is NOT registered: DbInner::enact_logs drops `Error` values on its
+# reject paths and CBMC does not get through the drop glue of io::Error's boxed `dyn Error` payload (3 probes, 7-20 min
+# each, never left symbolic execution; -Z restrict-vtable did not help). The record-sequence gate of enact_logs is
+# therefore outside the C13 claim (DESIGN 10.4).
+PROPS["C13"]["functions"] += ["IndexTable::{validate_plan, skip_plan}"]
+PROPS["C13"]["bounds"] += "; value-table payloads: entry sizes 64 / 4096, all 2^16 size fields, any slot; index pages: any page number and mask"
 
-for fn, tier in (("c12_o3b_db_clean_logs_q1", "quick"), ("c12_o3b_db_clean_logs_q2_race", "quick"), ("c12_o3b_db_clean_logs_q1_race", "thorough")):
-    add("C12", H("db", fn, tier, ["C12.O3"], "sync_data flag; 1-2 dirty logs; optionally a log becomes dirty while the tables are being flushed", "struct-literal DbInner with one miniature hash column (3 value tables); unwind 26", 1800, 10,
-                 unwind=26, stubs=ENV + FEV + TFILE + ["model: TableFile::flush may (nondeterministically) coincide with another worker appending a log file to the cleanup queue"], replay="solver-trace-only"))
-PROPS["C12"]["functions"] += ["DbInner::clean_logs", "Column::flush / HashColumn::flush"]
+# c12_o3b_db_clean_logs_* (harness/db.rs: DbInner::clean_logs with a table-flush model during which another worker may
+# append to the cleanup queue) are NOT registered: both timed out after 30 minutes (same Error drop-glue problem as
+# C13.P3). DbInner-level ordering of flush vs. truncation is therefore outside the C12 claim; Log::clean_logs is claimed.
 
-# ---- C09.Q: lookups through current and queued indexes (OvView)
-FINDC = ["stub: IndexTable::find_entry -> its contract (first slot >= start that is non-empty with equal partial key); the C19 harnesses show the real search refines it (superset of candidates for index sizes 16-17)"]
-OVVIEW = ["model: read paths generic in `impl LogQuery` are driven with harness type OvView (same array overlay, index pages from statics)"]
-for fn, tier in (("c09_q_lookup_current_index", "thorough"), ("c09_q_lookup_first_queued_index", "quick"), ("c09_q_lookup_second_queued_index", "quick")):
-    add("C09", H("column", fn, tier, ["C09.Q", "C14.Q"], "key tails of two colliding keys (24 bytes each), values, a third tail", "miniature hash column, index sizes 16/17/18 (two queued for reindex), one page; unwind 66", 2400, 12,
-                 unwind=66, stubs=ENV + OVERLAY + TFILE + FINDC + OVVIEW, replay="solver-trace-only"))
-PROPS["C09"]["functions"] += ["HashColumn::{get, get_in_index}", "IndexTable::{get, find_entry}", "Column::get_value", "ValueTable::{query, for_parts}"]
-PROPS["C09"]["bounds"] += "; lookups: one page with two colliding entries, key tails symbolic, entry in the current or in one of two queued older indexes"
-
-# ---- C07.W / C09.W / C14.W: one write_plan step on colliding keys (mapsub)
-for fn, tier in (("c07_w_deref_second_candidate_rc", "quick"), ("c07_w_deref_second_candidate_plain", "quick"), ("c07_w_deref_first_candidate_rc", "thorough"),
-                 ("c07_w_reference_second_candidate_rc", "quick"), ("c07_w_set_second_candidate_rc", "thorough"), ("c07_w_set_second_candidate_plain", "thorough"), ("c07_w_deref_absent_key", "thorough")):
-    for pid in ("C07", "C09", "C14"):
-        if pid != "C07" and fn not in ("c07_w_deref_second_candidate_rc", "c07_w_deref_second_candidate_plain", "c07_w_deref_absent_key"):
-            continue
-        add(pid, H("column", fn, tier, ["C07.W", "C09.W", "C14.W"], "key tails of three keys sharing page and partial key, counters, values", "miniature hash column, one 64-slot page with two colliding entries, one write_plan; unwind 66", 2400, 12,
-                   variant="mapsub", unwind=66, stubs=ENV + OVERLAY + TFILE + FINDC + MAPSUB, replay="solver-trace-only"))
-        _ms(pid)
-for pid in ("C07", "C09", "C14"):
-    PROPS[pid]["functions"] += ["HashColumn::{write_plan, write_plan_existing, search_all_indexes, search_index}", "IndexTable::{get, write_remove_plan, write_insert_plan}", "ValueTable::has_key_at"]
+# ---- C09.Q (lookups through current and queued indexes) and C07.W (write_plan on colliding keys): harness code exists
+# (harness/column.rs lookup_case, harness/column_ms.rs write_plan_case) but does not finish symbolic execution within
+# 20 minutes; not registered (DESIGN 10.4).
+EXPERIMENTAL = True
+FINDC = ["stub: IndexTable::find_entry -> its contract"]
+OVVIEW = ["model: read paths generic in `impl LogQuery` are driven with harness type OvView"]
+add("C07", H("table", "c07_r1_change_ref_multihead", "thorough", ["C07.R1"], "counter:u32, delta, all other bytes of a multipart head", "entry 64 bytes; unwind 66 (slow: both the multipart and the size-field branch of change_ref are explored on the 32 KiB buffer)", 5400, 10, unwind=66,
+             stubs=ENV + OVERLAY + TFILE, replay="playback-native-env"))
